@@ -3,6 +3,7 @@ package c11
 
 import (
 	"fmt"
+	"github.com/sirupsen/logrus"
 	"reflect"
 	"sort"
 	"strings"
@@ -532,6 +533,7 @@ func Run(c *engine.Ctx) {
 	c.Bound("sequential", fmt.Sprintf("%d operation instances over %d operand document variants x %d second-operand variants", total, len(names), len(names)))
 	vocabulary(c, docs)
 	sparsePersons(c, docs)
+	atTraceLevel(c, docs, names)
 	schedules(c)
 	fineGrained(c)
 }
@@ -677,4 +679,35 @@ func sparsePersons(c *engine.Ctx, docs map[string]func() *sbom.Document) {
 			})
 		}
 	}
+}
+
+// atTraceLevel: the log level as an environment answer. Every operation on every operand document variant once more
+// with the library's logger at trace level (output discarded): code behind a level test runs only there.
+func atTraceLevel(c *engine.Ctx, docs map[string]func() *sbom.Document, names []string) {
+	c.Group("sequential-at-trace-level")
+	total := 0
+	for _, dn := range names {
+		ops := Ops(docs[dn]())
+		total += len(ops)
+		for oi := range ops {
+			dn, oi := dn, oi
+			c.Case(func() any { return map[string]string{"op": ops[oi].Name, "operand": dn, "log-level": "trace"} }, func(t *engine.T) *engine.Violation {
+				d, aux := docs[dn](), docs["full-tree"]()
+				bd, ba := gen.Snap(d), gen.Snap(aux)
+				rw.AtLogLevel(logrus.TraceLevel, func() { ops[oi].Run(d, aux) })
+				t.Transitions(1)
+				t.Validated(2)
+				if ad := gen.Snap(d); ad != bd {
+					return engine.Violate("operand-mutated", opFamily(ops[oi].Name), "%s on %s (logger at trace level) changed its operand: %s", ops[oi].Name, dn, gen.SnapDiff(bd, ad))
+				}
+				if aa := gen.Snap(aux); aa != ba {
+					return engine.Violate("operand-mutated", opFamily(ops[oi].Name), "%s on %s (logger at trace level) changed its second operand: %s", ops[oi].Name, dn, gen.SnapDiff(ba, aa))
+				}
+				t.State("trace|" + ops[oi].Name + "|" + dn)
+				t.Outcome("unchanged-at-trace-level:" + opFamily(ops[oi].Name))
+				return nil
+			})
+		}
+	}
+	c.Bound("sequential-at-trace-level", fmt.Sprintf("%d operation instances over %d operand document variants with the library's logger at trace level", total, len(names)))
 }
